@@ -1128,6 +1128,11 @@ impl<'a> Message<'a> {
 
 impl Read for Message<'_> {
     fn read(&mut self, buf: &mut [u8]) -> io::Result<usize> {
+        if buf.is_empty() {
+            // nothing was asked for: this says nothing about the end of the data
+            return Ok(0);
+        }
+
         let read = match self {
             Self::Literal { reader, .. } => reader.read(buf),
             Self::Compressed { reader, .. } => reader.read(buf),
